@@ -65,7 +65,7 @@ theorem avg_sse_eq_portable (a b x : Nat) (ha : a < 256) (hb : b < 256) : avgSse
 
 theorem and_254 (a : Fin 256) : a.val &&& 254 = a.val - a.val % 2 := by
   revert a
-  decide
+  decide +kernel
 
 /-- Average on the first row -/
 theorem avgFirst_sse_eq_portable (a x : Nat) (ha : a < 256) : avgFirstSse a x = avgFirstPortable a x := by
@@ -83,18 +83,20 @@ theorem sub_sse_eq_portable (a x : Nat) : subSse a x = subPortable a x := by
 theorem step_sse_eq_portable (f : Nat) (pe : Bool) (a b c x : Nat) (ha : a < 256) (hb : b < 256) (hc : c < 256) :
     step .sse f pe a b c x = step .portable f pe a b c x := by
   unfold step
-  split
-  all_goals first
-    | rfl
-    | exact sub_sse_eq_portable a x
-    | exact (sub_sse_eq_portable a x).symm
-    | exact paeth_sse_eq_portable a b c x ha hb hc
-    | exact (paeth_sse_eq_portable a b c x ha hb hc).symm
-    | (cases pe
-       · simp only [Bool.false_eq_true, ↓reduceIte]
-         first | exact avg_sse_eq_portable a b x ha hb | exact (avg_sse_eq_portable a b x ha hb).symm | rfl
-       · simp only [↓reduceIte]
-         first | exact avgFirst_sse_eq_portable a x ha | exact (avgFirst_sse_eq_portable a x ha).symm | rfl)
+  by_cases h1 : f = 1
+  · simp only [h1, ↓reduceIte]
+    exact sub_sse_eq_portable a x
+  · by_cases h3 : f = 3
+    · simp only [h1, h3, ↓reduceIte]
+      cases pe
+      · simp only [Bool.false_eq_true, ↓reduceIte]
+        exact avg_sse_eq_portable a b x ha hb
+      · simp only [↓reduceIte]
+        exact avgFirst_sse_eq_portable a x ha
+    · by_cases h4 : f = 4
+      · simp only [h1, h3, h4, ↓reduceIte]
+        exact paeth_sse_eq_portable a b c x ha hb hc
+      · simp only [h1, h3, h4, ↓reduceIte]
 
 /-- `png_filters_sse_eq_portable`: for every filter type, filter distance, current row and previous
 row (of any lengths), the SSE4.2 row filter and the portable one produce the same bytes. -/
